@@ -15,7 +15,7 @@ COQ = os.path.join(os.path.dirname(os.path.dirname(os.path.abspath(__file__))), 
 TEXT = """From Coq Require Import List String Bool.
 From DV Require Import Model.Heap Model.HeapPins Gen.MutSkeleton.
 Import ListNotations.
-Eval vm_compute in (map sk_name (filter (fun sk => negb (no_arg_mutation sk || existsb (String.eqb (sk_name sk)) heap_unproven)) gen_skeletons)).
+Eval vm_compute in (all_summaries_ok gen_skeletons gen_summaries, map (fun p => sk_name (fst p)) (filter (fun p => negb (no_arg_mutation (snd p) || existsb (String.eqb (sk_name (fst p))) heap_unproven)) (combine gen_skeletons gen_summaries))).
 """
 with tempfile.TemporaryDirectory() as d:
     p = os.path.join(d, "q.v")
